@@ -145,6 +145,9 @@ func handleImports(raw json.RawMessage) *Obs {
 	if cs.C.K == "graph" {
 		return handleImportGraph(&cs)
 	}
+	if cs.C.K == "layout" {
+		return handleImportLayout(raw)
+	}
 	c := cs.C
 	obs := &Obs{Evals: 1}
 	parts := make([]string, len(c.Segs))
